@@ -32,7 +32,7 @@ Section DynProofs.
   Variable reacts : list (nat * reaction).
   Notation dstep := (dstep E reacts).
   Notation drun := (drun E reacts).
-  Notation dnext := (dnext reacts).
+  Notation dnext := (dnext E reacts).
   Notation settle := (settle reacts).
 
   Lemma has_id_false id l : has_id id l = false -> ~ In id (map h_id l).
@@ -63,32 +63,35 @@ Section DynProofs.
   Lemma wfd_settle st s' calls : wfd st -> wfd (settle st s' calls).
   Proof. intros H. unfold Dyn.settle. apply wfd_fold. exact H. Qed.
 
-  Lemma wf_with st : wfd st -> wf (with_handlers E (live st)) = true.
-  Proof. intros H. unfold wf. cbn. apply nodupb_iff. exact H. Qed.
+  Lemma wf_with st : wfd st -> wf (env_at E st) = true.
+  Proof. intros H. unfold wf. cbn [e_handlers env_at]. apply nodupb_iff. exact H. Qed.
 
-  Lemma live_after_quiet o st : live (after_quiet_assign o st) = live st.
+  Lemma live_after_quiet o st : live (after_quiet_assign E o st) = live st.
   Proof. destruct o; reflexivity. Qed.
   Lemma dstep_wfd st o : wfd st -> wfd (fst (dstep st o)).
   Proof.
-    intros H. destruct o as [op|h|id|on]; cbn [Dyn.dstep fst].
+    intros H. destruct o as [op|h|id|on|m]; cbn [Dyn.dstep fst].
     - destruct (if d_quiet st then _ else _) as [s' ob]. cbn [fst]. unfold wfd. rewrite live_after_quiet. apply wfd_settle. exact H.
     - apply wfd_register. exact H.
     - apply wfd_unregister. exact H.
+    - exact H.
     - exact H.
   Qed.
 
   Lemma quiet_op_slot st op : o_slot (snd (quiet_op E st op)) = fst (quiet_op E st op) /\ o_calls (snd (quiet_op E st op)) = [].
   Proof.
-    unfold quiet_op. destruct op as [v| | |v'|];
-      try (pose proof (step_slot (with_handlers E (live st)) (d_slot st) (Assign v)) as S;
-           destruct (step (with_handlers E (live st)) (d_slot st) (Assign v)) as [s' ob]; cbn in *; split; [exact S|reflexivity]);
-      try (pose proof (step_slot (with_handlers E (live st)) (d_slot st) Read) as S;
-           destruct (step (with_handlers E (live st)) (d_slot st) Read) as [s' ob]; cbn in *; split; [exact S|reflexivity]);
-      try (pose proof (step_slot (with_handlers E (live st)) (d_slot st) (QuietAssign v')) as S;
-           destruct (step (with_handlers E (live st)) (d_slot st) (QuietAssign v')) as [s' ob]; cbn in *; split; [exact S|reflexivity]);
-      try (pose proof (step_slot (with_handlers E (live st)) (d_slot st) Retrait) as S;
-           destruct (step (with_handlers E (live st)) (d_slot st) Retrait) as [s' ob]; cbn in *; split; [exact S|reflexivity]).
-    destruct (d_slot st); [destruct (e_kind E)|]; split; reflexivity.
+    unfold quiet_op. destruct op as [v| | |v'| |];
+      try (pose proof (step_slot (env_at E st) (d_slot st) (Assign v)) as S;
+           destruct (step (env_at E st) (d_slot st) (Assign v)) as [s' ob]; cbn in *; split; [exact S|reflexivity]);
+      try (pose proof (step_slot (env_at E st) (d_slot st) Read) as S;
+           destruct (step (env_at E st) (d_slot st) Read) as [s' ob]; cbn in *; split; [exact S|reflexivity]);
+      try (pose proof (step_slot (env_at E st) (d_slot st) (QuietAssign v')) as S;
+           destruct (step (env_at E st) (d_slot st) (QuietAssign v')) as [s' ob]; cbn in *; split; [exact S|reflexivity]);
+      try (pose proof (step_slot (env_at E st) (d_slot st) Other) as S;
+           destruct (step (env_at E st) (d_slot st) Other) as [s' ob]; cbn in *; split; [exact S|reflexivity]);
+      try (pose proof (step_slot (env_at E st) (d_slot st) Retrait) as S;
+           destruct (step (env_at E st) (d_slot st) Retrait) as [s' ob]; cbn in *; split; [exact S|reflexivity]).
+    destruct (d_slot st); [destruct (d_kind st)|]; split; reflexivity.
   Qed.
 
   (* one operation satisfies the law of the handlers live at that moment, and the law's own threading of the live
@@ -96,14 +99,14 @@ Section DynProofs.
   Lemma dstep_law st o : wfd st ->
     dlaw_step E st o (snd (dstep st o)) = [] /\ dnext st o (snd (dstep st o)) = fst (dstep st o).
   Proof.
-    intros H. destruct o as [op|h|id|on]; cbn [Dyn.dstep Dyn.dnext dlaw_step fst snd]; [|split; reflexivity..].
+    intros H. destruct o as [op|h|id|on|m]; cbn [Dyn.dstep Dyn.dnext dlaw_step fst snd]; [|split; reflexivity..].
     destruct (d_quiet st) eqn:Q.
     { destruct (quiet_op_slot st op) as [S C]. destruct (quiet_op E st op) as [s' ob]. cbn [fst snd] in *. rewrite S, C. split; reflexivity. }
-    destruct (empty_lists_delete E st op) eqn:Sp.
+    destruct (empty_lists_delete st op) eqn:Sp.
     - cbn [fst snd]. unfold empty_lists_delete in Sp. destruct op; try discriminate. split; reflexivity.
-    - pose proof (step_law (with_handlers E (live st)) (wf_with st H) (d_slot st) op) as L.
-      pose proof (step_slot (with_handlers E (live st)) (d_slot st) op) as S.
-      destruct (step (with_handlers E (live st)) (d_slot st) op) as [s' ob]. cbn [fst snd] in *. rewrite L, S. split; reflexivity.
+    - pose proof (step_law (env_at E st) (wf_with st H) (d_slot st) op) as L.
+      pose proof (step_slot (env_at E st) (d_slot st) op) as S.
+      destruct (step (env_at E st) (d_slot st) op) as [s' ob]. cbn [fst snd] in *. rewrite L, S. split; reflexivity.
   Qed.
 
   Theorem drun_law ops : forall st i, wfd st -> dlaw_hist E reacts i st (drun st ops) = [].
@@ -121,7 +124,7 @@ Section DynProofs.
     match o with
     | DOp op => if d_quiet st then []            (* notification switched off *)
                 else match find_id id (live st) with
-                     | Some h => spec_calls (with_handlers E (live st)) h (d_slot st) [op]
+                     | Some h => spec_calls (env_at E st) h (d_slot st) [op]
                      | None => []
                      end
     | _ => []
@@ -147,7 +150,7 @@ Section DynProofs.
       induction (e_handlers E') as [|x l IHl]; [reflexivity|]. cbn [filter].
       assert ((h_id x =? id) = false) as Hx by (apply Hno; left; reflexivity).
       destruct (accepted E' x old new); cbn; [rewrite Hx|]; apply IHl; intros h Hh; apply Hno; right; exact Hh. }
-    unfold step. destruct op as [v| | |v'|].
+    unfold step. destruct op as [v| | |v'| |].
     - destruct (e_validate E' v) as [w|]; [|reflexivity]. destruct (e_kind E') as [m|].
       + destruct (is_nil (e_handlers E')); [reflexivity|].
         destruct (match m with MNone => true | _ => negb (readable E' s =? new_value E' v w) end); [|reflexivity].
@@ -165,24 +168,25 @@ Section DynProofs.
       + cbn in *. rewrite app_nil_r. exact N0.
     - destruct (e_validate E' v'); [destruct (e_kind E')|]; reflexivity.
     - reflexivity.
+    - reflexivity.
   Qed.
 
   Lemma dstep_calls id st o : wfd st -> calls_of id (o_calls (snd (dstep st o))) = dspec_step id st o.
   Proof.
-    intros H. destruct o as [op|h|k|on]; [|reflexivity..]. cbn [Dyn.dstep dspec_step].
+    intros H. destruct o as [op|h|k|on|m]; [|reflexivity..]. cbn [Dyn.dstep dspec_step].
     destruct (d_quiet st) eqn:Q.
     { destruct (quiet_op_slot st op) as [_ C]. destruct (quiet_op E st op) as [s' ob]. cbn [fst snd] in *. rewrite C. reflexivity. }
-    destruct (empty_lists_delete E st op) eqn:Sp.
+    destruct (empty_lists_delete st op) eqn:Sp.
     - cbn [fst snd]. unfold empty_lists_delete in Sp. destruct op; try discriminate.
-      destruct (d_slot st); [|discriminate]. destruct (e_kind E); [|discriminate].
+      destruct (d_slot st); [|discriminate]. destruct (d_kind st); [|discriminate].
       apply andb_true_iff in Sp. destruct Sp as [Hnil _]. destruct (live st); [reflexivity|discriminate].
     - destruct (find_id id (live st)) as [h|] eqn:F.
       + destruct (find_id_some _ _ _ F) as [Hin <-].
-        pose proof (calls_exact (with_handlers E (live st)) (wf_with st H) h Hin [op] (d_slot st)) as C.
-        cbn [run] in C. destruct (step (with_handlers E (live st)) (d_slot st) op) as [s' ob].
+        pose proof (calls_exact (env_at E st) (wf_with st H) h Hin [op] (d_slot st)) as C.
+        cbn [run] in C. destruct (step (env_at E st) (d_slot st) op) as [s' ob].
         cbn [all_calls flat_map snd] in C. rewrite app_nil_r in C. exact C.
-      + pose proof (calls_of_nobody id (with_handlers E (live st)) (d_slot st) op (find_id_none _ _ F)) as C.
-        destruct (step (with_handlers E (live st)) (d_slot st) op) as [s' ob]. exact C.
+      + pose proof (calls_of_nobody id (env_at E st) (d_slot st) op (find_id_none _ _ F)) as C.
+        destruct (step (env_at E st) (d_slot st) op) as [s' ob]. exact C.
   Qed.
 
   Theorem dcalls_exact id ops : forall st, wfd st -> calls_of id (dall_calls (drun st ops)) = dspec id st ops.
@@ -292,7 +296,7 @@ Section DynProofs.
     intros Q. cbn [Dyn.dstep]. rewrite Q. destruct (quiet_op_slot st op) as [_ C].
     assert (o_sink (snd (quiet_op E st op)) = []) as K.
     { unfold quiet_op. destruct op; try (destruct (step _ _ _); reflexivity).
-      destruct (d_slot st); [destruct (e_kind E)|]; reflexivity. }
+      destruct (d_slot st); [destruct (d_kind st)|]; reflexivity. }
     destruct (quiet_op E st op) as [s' ob]. cbn [fst snd] in *. rewrite C. split; [reflexivity|]. split; [exact K|].
     rewrite live_after_quiet. reflexivity.
   Qed.
@@ -309,9 +313,9 @@ Section DynProofs.
   Proof.
     intros Hc. induction ops as [|o r IH]; intros st Hp; [reflexivity|]. destruct Hp as [Hp Hr].
     cbn [dspec]. rewrite !map_app, (IH _ Hr). f_equal.
-    destruct o as [op|h|k|on]; try reflexivity. cbn [dspec_step]. destruct (d_quiet st); [reflexivity|].
+    destruct o as [op|h|k|on|m]; try reflexivity. cbn [dspec_step]. destruct (d_quiet st); [reflexivity|].
     destruct (find_id id1 (live st)) as [h1|] eqn:F1, (find_id id2 (live st)) as [h2|] eqn:F2.
-    - apply (spec_calls_agree (with_handlers E (live st)) h1 h2 Hc [op] (d_slot st)).
+    - apply (spec_calls_agree (env_at E st) h1 h2 Hc [op] (d_slot st)).
     - destruct Hp as [_ Hp]. specialize (Hp eq_refl). discriminate.
     - destruct Hp as [Hp _]. specialize (Hp eq_refl). discriminate.
     - reflexivity.
@@ -325,7 +329,7 @@ End DynProofs.
 (* ================= which handlers raise does not matter, with handlers coming and going ================= *)
 Definition setr (f : nat -> bool) (h : handler) : handler := mkHandler (h_id h) (h_mech h) (f (h_id h)).
 Definition setr_state (f : nat -> bool) (st : dstate) : dstate :=
-  mkD (d_slot st) (map (setr f) (d_tl st)) (map (setr f) (d_ol st)) (d_alloc st) (d_quiet st).
+  mkD (d_slot st) (map (setr f) (d_tl st)) (map (setr f) (d_ol st)) (d_alloc st) (d_quiet st) (d_kind st).
 Definition setr_reaction (f : nat -> bool) (r : reaction) : reaction :=
   match r with RKill v => RKill v | RSpawn h => RSpawn (setr f h) end.
 Definition setr_reacts (f : nat -> bool) (rs : list (nat * reaction)) : list (nat * reaction) :=
@@ -371,14 +375,15 @@ Section DynTransparent.
     unfold triggered. induction calls as [|c l IH]; [reflexivity|]. cbn [flat_map]. rewrite map_app, IH, filter_setr. reflexivity.
   Qed.
   Lemma settle_setr st s' calls : settle Rf (setr_state f st) s' calls = setr_state f (settle reacts st s' calls).
-  Proof. unfold settle. rewrite triggered_setr. apply (fold_setr _ (mkD s' (d_tl st) (d_ol st) (d_alloc st) (d_quiet st))). Qed.
+  Proof. unfold settle. rewrite triggered_setr. apply (fold_setr _ (mkD s' (d_tl st) (d_ol st) (d_alloc st) (d_quiet st) (d_kind st))). Qed.
 
-  Lemma with_setr l : with_handlers Ef (map (setr f) l) = set_raises f (with_handlers E l).
-  Proof. reflexivity. Qed.
+  Lemma env_at_setr st : env_at Ef (setr_state f st) = set_raises f (env_at E st).
+  Proof. unfold env_at, set_raises. cbn [e_eq e_ne e_validate e_default e_kind e_handlers e_store_original d_kind setr_state].
+         rewrite live_setr. reflexivity. Qed.
   Lemma is_nil_map {A B} (g : A -> B) l : is_nil (map g l) = is_nil l.
   Proof. destruct l; reflexivity. Qed.
 
-  Lemma after_quiet_setr o st : after_quiet_assign o (setr_state f st) = setr_state f (after_quiet_assign o st).
+  Lemma after_quiet_setr o st : after_quiet_assign Ef o (setr_state f st) = setr_state f (after_quiet_assign E o st).
   Proof. destruct o; reflexivity. Qed.
 
   (* one operation: the states stay related and everything but the sink is the same *)
@@ -386,33 +391,34 @@ Section DynTransparent.
     fst (dstep Ef Rf (setr_state f st) (setr_op f o)) = setr_state f (fst (dstep E reacts st o))
     /\ visible (snd (dstep Ef Rf (setr_state f st) (setr_op f o))) = visible (snd (dstep E reacts st o)).
   Proof.
-    destruct o as [op|h|id|on]; cbn [setr_op dstep fst snd].
+    destruct o as [op|h|id|on|m]; cbn [setr_op dstep fst snd].
     - assert (d_quiet (setr_state f st) = d_quiet st) as -> by reflexivity.
       assert (d_slot (setr_state f st) = d_slot st) as Hsl by reflexivity.
       destruct (d_quiet st).
       + (* switched off *)
-        unfold quiet_op. rewrite live_setr, with_setr, Hsl. cbn [e_kind set_raises].
-        destruct op as [v| | |v'|];
+        unfold quiet_op. rewrite env_at_setr, Hsl. assert (d_kind (setr_state f st) = d_kind st) as -> by reflexivity.
+        destruct op as [v| | |v'| |];
           try (match goal with |- context [step (set_raises f ?E') ?s ?o] =>
                  destruct (step_visible_set_raises E' f s o) as [F V];
                  destruct (step (set_raises f E') s o) as [s1 ob1], (step E' s o) as [s2 ob2] end;
                cbn [fst snd] in *; subst s1; unfold visible in V; inversion V as [[V1 V2 V3]];
                cbn [o_calls fst snd]; rewrite settle_setr, after_quiet_setr; split; [reflexivity|];
                unfold visible; cbn; rewrite V1, V2; reflexivity).
-        destruct (d_slot st); [destruct (e_kind E)|]; cbn [fst snd o_calls silent];
+        destruct (d_slot st); [destruct (d_kind st)|]; cbn [fst snd o_calls silent];
           rewrite settle_setr, after_quiet_setr; split; reflexivity.
-      + assert (empty_lists_delete Ef (setr_state f st) op = empty_lists_delete E st op) as ->.
+      + assert (empty_lists_delete (setr_state f st) op = empty_lists_delete st op) as ->.
         { unfold empty_lists_delete. rewrite live_setr, is_nil_map. reflexivity. }
-        destruct (empty_lists_delete E st op).
+        destruct (empty_lists_delete st op).
         * cbn [fst snd o_calls silent]. rewrite settle_setr, after_quiet_setr. split; reflexivity.
-        * rewrite live_setr, with_setr, Hsl.
-          destruct (step_visible_set_raises (with_handlers E (live st)) f (d_slot st) op) as [F V].
-          destruct (step (set_raises f (with_handlers E (live st))) (d_slot st) op) as [s1 ob1],
-                   (step (with_handlers E (live st)) (d_slot st) op) as [s2 ob2].
+        * rewrite env_at_setr, Hsl.
+          destruct (step_visible_set_raises (env_at E st) f (d_slot st) op) as [F V].
+          destruct (step (set_raises f (env_at E st)) (d_slot st) op) as [s1 ob1],
+                   (step (env_at E st) (d_slot st) op) as [s2 ob2].
           cbn [fst snd] in *. subst s1. unfold visible in V. inversion V as [[V1 V2 V3]]. rewrite V3.
           rewrite settle_setr, after_quiet_setr. split; [reflexivity|]. unfold visible. rewrite V1, V2, V3. reflexivity.
     - rewrite register_setr. split; reflexivity.
     - rewrite unregister_setr. split; reflexivity.
+    - split; reflexivity.
     - split; reflexivity.
   Qed.
 
